@@ -1966,3 +1966,13 @@ V(id='c35-norm-margin-benign', prop='C35', file='mpmath/identification.py',
 V(id='c35-identify-negative-drops-tol', prop='C35', file='mpmath/identification.py',
   old="        sol = ctx.identify(-x, constants, tol, maxcoeff, full, verbose)", new="        sol = ctx.identify(-x, constants, maxcoeff=maxcoeff, full=full, verbose=verbose)",
   expect='fire:Q-R8:identify')
+
+# ---- C14 C-R17 ----
+V(id='c14-gamma-increasing-lower-bracket', prop='C14', file='mpmath/libmp/libmpi.py',
+  old="    if mpf_gt(a, gamma_min_b):", new="    if mpf_gt(a, gamma_min_a):", expect='fire:C-R17:mpi_gamma')
+V(id='c14-gamma-decreasing-upper-bracket', prop='C14', file='mpmath/libmp/libmpi.py',
+  old="    elif mpf_gt(a, fzero) and mpf_lt(b, gamma_min_a):", new="    elif mpf_gt(a, fzero) and mpf_lt(b, gamma_min_b):", expect='fire:C-R17:mpi_gamma')
+V(id='c14-gamma-decreasing-tests-lower-endpoint', prop='C14', file='mpmath/libmp/libmpi.py',
+  old="    elif mpf_gt(a, fzero) and mpf_lt(b, gamma_min_a):", new="    elif mpf_gt(a, fzero) and mpf_lt(a, gamma_min_a):", expect='fire:C-R17:mpi_gamma')
+V(id='c14-gamma-bracket-benign-ge', prop='C14', file='mpmath/libmp/libmpi.py',
+  old="    if mpf_gt(a, gamma_min_b):", new="    if mpf_ge(a, gamma_min_b):", expect='silent')
